@@ -62,6 +62,11 @@ pub(crate) enum Error {
     input: InputTarget,
     source: MetainfoError,
   },
+  #[snafu(display(
+    "Invalid torrent name `{}`: the name must be a single path component",
+    name,
+  ))]
+  NameInvalid { name: String },
   #[snafu(display("Network error: {}", source))]
   Network { source: io::Error },
   #[snafu(display("Failed to invoke opener: {}", source))]
